@@ -10,6 +10,8 @@ Input (ints):  wb sb pb  <models>  encoder-ops...  [9|10 ...  decoder-ops...]
        5 k m1..mk     decoder() (dropped)      -> k x (0 sym | -6 0)  maybe_exhausted
        6              raw parts                -> len bulk.. lower range sit_n sit_w
        7              into_raw_parts / from_raw_parts round trip -> 0
+      13              enc := copy made by clone_from into a stale scratch encoder -> 0
+      14              enc := enc.clone() (the old one becomes the next scratch)  -> 0
        8 len bulk.. lower range n w   from_raw_parts(explicit)   -> 0 | -5 (RangeCoderState::new refused)
        9 len sfx..    into_compressed, then RangeDecoder::from_compressed(words ++ sfx)
                                                -> len words..
@@ -210,7 +212,7 @@ def gen_suffix(rng, wb, sb, allow_empty=True):
     return [rng.randrange(1 << wb) for _ in range(n)]
 
 
-INSPECT = [2, 3, 4, 6, 7]
+INSPECT = [2, 3, 4, 6, 7, 13, 13, 14]
 
 
 def _seal_op(rng):
@@ -850,7 +852,7 @@ def walk(inp, out):
             elif op == 6:
                 b = words()
                 yield (6, (), (b, take(4))); i += 1
-            elif op == 7:
+            elif op in (7, 13, 14):     # raw-parts round trip / clone_from / clone: the same coder
                 yield (7, (), take(1)[0]); i += 1
             elif op == 8:
                 n = inp[i + 1]
